@@ -38,3 +38,8 @@ impl ToPrimitive for u128 {
 pub assume_specification<T, U, F: FnOnce(T) -> U> [Option::<T>::map_or] (o: Option<T>, default: U, f: F) -> (r: U)
     requires o is Some ==> f.requires((o->Some_0,))
     ensures o is None ==> r == default, o is Some ==> f.ensures((o->Some_0,), r);
+/// D2/D3 helper: the i-th element of a consumed Vec / array / slice (what `into_iter()` would move out)
+#[verifier::external_body]
+pub fn verif_elem<T>(v: &Vec<T>, i: usize) -> (r: T) requires i < v@.len() ensures r == v@[i as int] { unimplemented!() }
+#[verifier::external_body]
+pub fn verif_elem_arr<T, const N: usize>(v: &[T; N], i: usize) -> (r: T) requires i < N ensures r == v@[i as int] { unimplemented!() }
